@@ -631,22 +631,52 @@ class FDE:
                     vals.append(self._ev(x, env, fi))
             return tuple(vals) if isinstance(e, ast.Tuple) else vals
         if isinstance(e, ast.JoinedStr):
-            return Opaque('fstring')
+            # evaluated when every interpolated value is a concrete scalar; otherwise the text is opaque (only used in messages)
+            parts = []
+            try:
+                for v in e.values:
+                    if isinstance(v, ast.Constant):
+                        parts.append(str(v.value))
+                    else:
+                        x = self._ev(v.value, env, fi)
+                        if not (x is None or isinstance(x, (str, int, float, bool))):
+                            return Opaque('fstring')
+                        if v.conversion == ord('r'):
+                            x = repr(x)
+                        elif v.conversion == ord('s'):
+                            x = str(x)
+                        spec = ''
+                        if v.format_spec is not None:
+                            sp = self._ev(v.format_spec, env, fi)
+                            if not isinstance(sp, str):
+                                return Opaque('fstring')
+                            spec = sp
+                        parts.append(format(x, spec))
+            except (Unsupported, Raised):
+                return Opaque('fstring')
+            return ''.join(parts)
         if isinstance(e, ast.Subscript) and isinstance(e.slice, ast.Slice):
             b = self._ev(e.value, env, fi)
-            if not isinstance(b, (tuple, list)):
+            if not isinstance(b, (tuple, list, str)) or (isinstance(b, tuple) and b and isinstance(b[0], str) and b[0] in ('class', 'ext', 'kind', 'closure')):
                 raise Unsupported('slice of %r' % (b,))
             lo = self._ev(e.slice.lower, env, fi) if e.slice.lower is not None else None
             hi = self._ev(e.slice.upper, env, fi) if e.slice.upper is not None else None
-            return b[lo:hi]
+            st = self._ev(e.slice.step, env, fi) if e.slice.step is not None else None
+            if any(x is not None and not isinstance(x, int) for x in (lo, hi, st)):
+                raise Unsupported('slice bounds of %s' % unparse(e))
+            return b[lo:hi:st]
         if isinstance(e, ast.Subscript):
             b = self._ev(e.value, env, fi)
             k = self._ev(e.slice, env, fi)
-            if isinstance(b, (dict, list, tuple)):
+            if isinstance(b, (dict, list, tuple)) or (isinstance(b, str) and isinstance(k, int)):
                 try:
                     return b[k]
-                except (KeyError, IndexError):
+                except KeyError:
                     raise Raised('KeyError')
+                except IndexError:
+                    raise Raised('IndexError' if isinstance(b, (list, tuple, str)) else 'KeyError')
+                except TypeError:
+                    raise Unsupported('subscript %r[%r]' % (b, k))
             raise Unsupported('subscript of %r' % (b,))
         if isinstance(e, (ast.GeneratorExp, ast.ListComp)) and len(e.generators) == 1 and not e.generators[0].is_async:
             gen = e.generators[0]
